@@ -3,9 +3,9 @@
 (*                                                                                           *)
 (* Written from the Yellow Paper and the EIPs (150 63/64 rule, 161, 1153 transient storage,  *)
 (* 1559, 2200/2929/3529 storage gas and refunds, 2930 access lists, 3541, 3651 warm          *)
-(* coinbase, 4844 blob fee (envelope only), 7702 delegated code and authorisation lists,      *)
-(* coinbase, 3855 PUSH0, 3860 initcode, 6780 SELFDESTRUCT, 7623 calldata floor (Prague),     *)
-(* 7825 transaction gas cap (Osaka), 7939 CLZ (Osaka)), for the rule sets Cancun, Prague and *)
+(* coinbase, 3855 PUSH0, 3860 initcode, 4844 blob fee (envelope only), 6780 SELFDESTRUCT,    *)
+(* 7623 calldata floor (Prague), 7702 delegated code and authorisation lists (Prague), 7825  *)
+(* transaction gas cap (Osaka), 7939 CLZ (Osaka)), for the rule sets Cancun, Prague and      *)
 (* Osaka - not from core/vm.                                                                 *)
 (*                                                                                           *)
 (* Values.  A 256-bit word is represented by an integer:                                     *)
